@@ -772,6 +772,10 @@ def resume_tests(script_parts, options, features, layers, failures, errors,
     # Get an object that (only) accepts bytes
     stdout = _get_output_buffer(sys.stdout)
     while ready_threads or running_threads:
+        if options.stop_on_error and (failures or errors):
+            # Like the layer loop of an in-process run: do not start
+            # (set up) further layers once something went wrong.
+            del ready_threads[:]
         while len(running_threads) < options.processes and ready_threads:
             thread = ready_threads.pop(0)
             thread.start()
